@@ -427,6 +427,26 @@ def lemma_sum_empty(ctx, d, name="sum_empty"):
     ctx.assume(d.sym == 0)
 
 
+def lemma_sum_split(ctx, whole, a, b, name="sum_split"):
+    """Σ_{A∨B} f = Σ_A f + Σ_B f for disjoint A, B (same summand on both parts)"""
+    _use("sum_split")
+    if not (whole.space is a.space is b.space):
+        raise Undecided("sum_split over different spaces")
+    f = z3.And(*whole.space.facts())
+    ctx.oblige(name + "/side.domains", z3.Implies(f, z3.And(whole.dom == z3.Or(a.dom, b.dom), z3.Not(z3.And(a.dom, b.dom)))), kind="lemma-side")
+    ctx.oblige(name + "/side.summands", z3.Implies(f, z3.And(z3.Implies(a.dom, whole.summand == a.summand), z3.Implies(b.dom, whole.summand == b.summand))), kind="lemma-side")
+    ctx.assume(whole.sym == a.sym + b.sym)
+
+
+def lemma_sum_singleton(ctx, d, point, name="sum_singleton"):
+    """a sum whose domain holds at most the one row `point`: Σ = f(point) if the row is in the domain, else 0"""
+    _use("sum_split (singleton)")
+    sp = d.space
+    ctx.oblige(name + "/side.at_most_one_row", z3.Implies(z3.And(*sp.facts(), d.dom), sp.u == point), kind="lemma-side")
+    at = lambda t: z3.substitute(t, (sp.u, point))  # noqa: E731
+    ctx.assume(d.sym == z3.If(at(d.dom), at(d.summand), 0 * at(d.summand)))
+
+
 def lemma_sum_congr(ctx, a, b, name="sum_congr"):
     """Σ_A f = Σ_B g when A<->B and f=g on A pointwise."""
     _use("sum_congr_dom")
